@@ -16,7 +16,21 @@ def jobs(tier):
                          '_MIR_output_data_item_els', 'MIR_type_str'}
         j.strict_reach = False
         J.append(j)
+    for e in ('str', 'float', 'double', 'ldouble', 'proto'):
+        j = Job('text.' + e, 'harness/c10_text.c', 'h_output_' + e, defines={'NDEBUG': None}, unwind=18, unwindset=['h_output_str.2:50'], object_bits=10,
+                scope=['fprintf', 'emit', 'spec_decode', 'at', 'isprint', 'run_proto', 'vp_on_error', 'vp_out_FLOAT', 'vp_out_DOUBLE', 'vp_out_LDOUBLE'], timeout=600, solver='cadical', no_standard_checks=True,
+                ops=[('slice_case', 'MIR_output_op', 'MIR_OP_' + m, 'static void vp_out_%s (FILE *f, MIR_op_t op)' % m, '', 'return;') for m in ('FLOAT', 'DOUBLE', 'LDOUBLE')])
+        j.restrict_fp = ['MIR_type_str.function_pointer_call.1/vp_error_func']
+        if e == 'str':
+            j.kind = 'bounded'
+            j.bound = 'strings of at most 3 bytes (every byte value)'
+        if e == 'proto':
+            j.kind = 'bounded'
+            j.bound = 'every shape with at most 2 results and 1 parameter, with and without the variadic marker'
+        j.count_funcs = {'MIR_output_str', 'MIR_output_op', 'output_func_proto', 'MIR_type_str', 'type_str'}
+        j.strict_reach = False
+        J.append(j)
     return J
 
 
-META = {'functions': [], 'undecided_part': '', 'trusted_base': ['fprintf model in harness/c10_output.c (FILE opaque)']}
+META = {'functions': [], 'undecided_part': '', 'trusted_base': ['fprintf model in harness/c10_output.c (FILE opaque)', 'character-level fprintf model and C-locale isprint in harness/c10_text.c']}
